@@ -101,7 +101,7 @@ thread_local! {
     static FILL_STYLE: std::cell::Cell<u8> = const { std::cell::Cell::new(0) };
 }
 
-pub const FILL_STYLES: [u8; 6] = [0, 1, 2, 3, 4, 5];
+pub const FILL_STYLES: [u8; 10] = [0, 1, 2, 3, 4, 5, 6, 7, 8, 9];
 
 /// Run `f` (typically a catalogue constructor) with opaque field contents drawn from another pattern.
 pub fn with_fill_style<T>(style: u8, f: impl FnOnce() -> T) -> T {
@@ -154,9 +154,37 @@ impl W {
     /// `n` bytes of opaque content. The pattern depends on the thread's fill style (see
     /// `with_fill_style`): 0 = recognisable counting pattern starting at `seed` (default),
     /// 1 = all zero, 2 = `00 ff 00 ff ..`, 3 = `00 80 ff 7f ..` (leading zero before a high
-    /// bit), 4 = all ff, 5 = `80 00 00 ..` (high bit first).
+    /// bit), 4 = all ff, 5 = `80 00 00 ..` (high bit first), 6..9 = DER-shaped (tag 06 / 30 / 04 / 02 with a
+    /// definite length that covers the rest of the field).
     pub fn fill(&mut self, n: usize, seed: u8) -> &mut W {
         let style = FILL_STYLE.with(|s| s.get());
+        if (6..=9).contains(&style) {
+            // DER-shaped content: tag, definite length covering the rest of the field, counting body
+            let tag = [0x06u8, 0x30, 0x04, 0x02][(style - 6) as usize];
+            let mut v: Vec<u8> = Vec::with_capacity(n);
+            if n >= 1 {
+                v.push(tag);
+            }
+            if n >= 2 {
+                let rest = n - 2;
+                if rest < 128 {
+                    v.push(rest as u8);
+                } else if n >= 3 && n - 3 < 256 {
+                    v.push(0x81);
+                    v.push((n - 3) as u8);
+                } else if n >= 4 {
+                    v.push(0x82);
+                    v.push(((n - 4) >> 8) as u8);
+                    v.push((n - 4) as u8);
+                }
+            }
+            while v.len() < n {
+                v.push(seed.wrapping_add((v.len() % 251) as u8));
+            }
+            v.truncate(n);
+            self.buf.extend_from_slice(&v);
+            return self;
+        }
         for i in 0..n {
             let b = match style {
                 0 => seed.wrapping_add((i % 251) as u8),
